@@ -1764,3 +1764,133 @@ Proof.
   - eapply step_set_archs; eauto.
   - eapply step_add_profile; eauto.
 Qed.
+
+(* ------------------------------------------------------------------ programs *)
+Lemma h_ops_content ops : forall a a' tr, h_ops ops a = Some (a', tr) -> h_f a' = fold_left xstep tr (h_f a).
+Proof.
+  induction ops as [|o rest IH]; intros a a' tr H; cbn [h_ops] in H.
+  - injection H as <- <-. reflexivity.
+  - destruct (h_op o a) as [[a1 t1]|] eqn:E1; [|discriminate].
+    destruct (h_ops rest a1) as [[a2 t2]|] eqn:E2; [|discriminate]. injection H as <- <-.
+    rewrite fold_left_app, (IH _ _ _ E2). f_equal.
+    clear -E1. destruct o; cbn [h_op] in E1;
+      repeat match type of E1 with
+             | match ?x with _ => _ end = _ => destruct x; try discriminate
+             | (if ?x then _ else _) = _ => destruct x; try discriminate
+             end; injection E1 as <- <-; reflexivity.
+Qed.
+
+Theorem handles_history b sv ops : forall st a a' tr,
+  Rel b sv st a -> h_ops ops a = Some (a', tr) -> forallb operands_ok tr = true ->
+  exists st', run_ops fixed ops st = Ok st' /\ Rel b sv st' a'.
+Proof.
+  induction ops as [|o rest IH]; intros st a a' tr HR H Ho; cbn [h_ops] in H.
+  - injection H as <- <-. exists st. auto.
+  - destruct (h_op o a) as [[a1 t1]|] eqn:E1; [|discriminate].
+    destruct (h_ops rest a1) as [[a2 t2]|] eqn:E2; [|discriminate]. injection H as <- <-.
+    rewrite forallb_app in Ho. apply andb_prop in Ho as [Ho1 Ho2].
+    destruct (handles_step b sv st a o a1 t1 HR E1 Ho1) as (out & st1 & R1 & HR1).
+    destruct (IH st1 a1 a2 t2 HR1 E2 Ho2) as (st' & R' & HR').
+    exists st'. split; [|exact HR']. cbn [run_ops]. now rewrite R1.
+Qed.
+
+(* what the relation says about the root: the tree of a well-formed layout with the content of
+   the abstract state, which reads back (C10) to that content *)
+Theorem Rel_reread b sv st a : Rel b sv st a ->
+  exists l, root_tree st = Ok (ltree l) /\ root_text st = Ok (text (ltree l)) /\
+            lwf b l = true /\ lcontent l = (h_f a, sv) /\
+            exists acc, parse_relaxed (text (ltree l)) b = Ok (rtree_of (norm l), 0) /\
+                        text (rtree_of (norm l)) = text (ltree l) /\
+                        racc (rtree_of (norm l)) = Ok acc /\ racc_view acc = (h_f a, sv).
+Proof.
+  destruct st as [ts rs]. intros (tid & ri & l & HT & Hw & Hc & H0 & Hok & U). cbn [trees regs] in *.
+  pose proof (rel_root ts rs a tid l H0 Hok) as Hr0. exists l.
+  assert (Hn : node_of_reg 0 (mk_state ts rs) = Ok (ltree l, mk_state ts rs)).
+  { apply runs_intro. unfold node_of_reg. rbind; [apply runs_get_reg; apply reg_at_nth; exact Hr0|].
+    eapply runs_node_of; [exact HT|reflexivity]. }
+  split; [unfold root_tree; now rewrite Hn|]. split; [unfold root_text; now rewrite Hn|].
+  split; [exact Hw|]. split; [exact Hc|].
+  destruct (live_reread b l Hw) as (acc & P & T & A & V). exists acc. rewrite <- Hc. auto.
+Qed.
+
+(* ------------------------------------------------------------------ the start *)
+(* whatever the other registers hold at the start is "a node outside the field" *)
+Definition h_of (st : state) : nat -> option ref :=
+  fun q => if q =? 0 then Some Root else option_map (fun _ => Gone) (reg_at (regs st) q).
+Lemma Rel_of_holds b st l : holds st (ltree l) -> lwf b l = true ->
+  Rel b (snd (lcontent l)) st (mk_hstate (fst (lcontent l)) (h_of st)).
+Proof.
+  intros (ts & tid & ri & x1 & x2 & x3 & x4 & -> & HT) Hw. exists tid, ri, l. cbn [trees regs h_f h_reg st5].
+  split; [exact HT|]. split; [exact Hw|]. split; [now destruct (lcontent l)|]. split; [reflexivity|]. split.
+  - intros q. unfold h_of. cbn [regs st5]. destruct q as [|q]; [reflexivity|]. cbn [Nat.eqb].
+    destruct (reg_at _ (S q)); exact I.
+  - intros q q' x x' g g' _ Hx _ Nx. unfold h_of in Hx. destruct (q =? 0); [injection Hx as <-; discriminate|].
+    destruct (reg_at _ q); [injection Hx as <-; discriminate|discriminate].
+Qed.
+
+(* the whole: ANY program of the eighteen operations through ANY registers, from a state whose
+   root holds a well-formed field *)
+Theorem handles_history_field b f st ops a' tr :
+  wf_rfield b f = true -> holds st (rtree_of f) ->
+  h_ops ops (mk_hstate (fst (rcontent f)) (h_of st)) = Some (a', tr) -> forallb operands_ok tr = true ->
+  exists st' l',
+    run_ops fixed ops st = Ok st' /\
+    Rel b (snd (rcontent f)) st' a' /\
+    h_f a' = fold_left xstep tr (fst (rcontent f)) /\
+    root_tree st' = Ok (ltree l') /\ root_text st' = Ok (text (ltree l')) /\
+    lwf b l' = true /\ lcontent l' = (fold_left xstep tr (fst (rcontent f)), snd (rcontent f)) /\
+    exists acc, parse_relaxed (text (ltree l')) b = Ok (rtree_of (norm l'), 0) /\
+                text (rtree_of (norm l')) = text (ltree l') /\
+                racc (rtree_of (norm l')) = Ok acc /\
+                racc_view acc = (fold_left xstep tr (fst (rcontent f)), snd (rcontent f)).
+Proof.
+  intros Hwf Hst Hh Ho. pose proof (lwf_live_of b f Hwf) as Hl. rewrite <- ltree_live_of in Hst.
+  pose proof (Rel_of_holds b st (live_of f) Hst Hl) as HR. rewrite lcontent_live_of in HR.
+  destruct (handles_history b _ ops st _ a' tr HR Hh Ho) as (st' & R & HR').
+  pose proof (h_ops_content _ _ _ _ Hh) as Hf. cbn [h_f] in Hf.
+  destruct (Rel_reread _ _ _ _ HR') as (l' & RT & RX & Hw' & Hc' & acc & P & T & A & V).
+  exists st', l'. rewrite <- Hf. repeat (split; [assumption || reflexivity|]). exists acc. auto.
+Qed.
+
+(* ------------------------------------------------------------------ what a handle shows *)
+(* an Entry handle that denotes entry i shows the i-th entry of the field as it is now
+   (Entry::to_string() through the old handle = the text of that entry in the root) *)
+Lemma nth_entry_lentries l i ci e : nth_entry l i = Some (ci, e) -> nth_error (lentries l) i = Some e.
+Proof.
+  intros H. destruct (nth_entry_entries _ _ _ _ H) as (pre & post & -> & _ & <-). rewrite lentries_split. apply nth_error_app_len.
+Qed.
+Theorem Rel_entry_handle b sv st a k i : Rel b sv st a -> h_reg a (ereg k) = Some (ELive i) ->
+  exists l e, root_tree st = Ok (ltree l) /\ lcontent l = (h_f a, sv) /\
+              nth_error (lentries l) i = Some e /\
+              reg_text (ereg k) st = Ok (Some (text (lentry_tree e)), st).
+Proof.
+  destruct st as [ts rs]. intros (tid & ri & l & HT & Hw & Hc & H0 & Hok & U) Hk. cbn [trees regs] in *.
+  pose proof (rel_root ts rs a tid l H0 Hok) as Hr0. pose proof (Hok (ereg k)) as Hek. rewrite Hk in Hek.
+  destruct (reg_at rs (ereg k)) as [g|] eqn:Eg; [|contradiction]. cbn [ref_ok] in Hek. destruct Hek as (ci & e & He & ->).
+  exists l, e. split.
+  - unfold root_tree. replace (node_of_reg 0 (mk_state ts rs)) with (Ok (ltree l, mk_state ts rs)); [reflexivity|].
+    symmetry. apply runs_intro. unfold node_of_reg. rbind; [apply runs_get_reg; apply reg_at_nth; exact Hr0|].
+    eapply runs_node_of; [exact HT|reflexivity].
+  - split; [exact Hc|]. split; [now apply (nth_entry_lentries l i ci)|].
+    apply runs_intro. eapply reg_text_runs; [exact Eg|exact HT|apply (get_path_entry _ _ _ _ He)].
+Qed.
+(* a Relation handle that denotes alternative j of entry i shows that alternative *)
+Theorem Rel_relation_handle b sv st a m i j : Rel b sv st a -> h_reg a (rreg m) = Some (RLive i j) ->
+  exists l e r, root_tree st = Ok (ltree l) /\ lcontent l = (h_f a, sv) /\
+                nth_error (lentries l) i = Some e /\ nth_rel e j = Some r /\
+                reg_text (rreg m) st = Ok (Some (text (lrel_tree r)), st).
+Proof.
+  destruct st as [ts rs]. intros (tid & ri & l & HT & Hw & Hc & H0 & Hok & U) Hm. cbn [trees regs] in *.
+  pose proof (rel_root ts rs a tid l H0 Hok) as Hr0. pose proof (Hok (rreg m)) as Hrm. rewrite Hm in Hrm.
+  destruct (reg_at rs (rreg m)) as [g|] eqn:Eg; [|contradiction]. cbn [ref_ok] in Hrm. destruct Hrm as (ci & e & cj & He & Hj & ->).
+  pose proof (rel_slot_inv _ _ _ Hj) as Hjn. destruct (nth_rel_some e j ltac:(now apply Nat.ltb_lt)) as (r & Hr).
+  destruct (entry_rel_split e j r Hr) as (rp & rq & Ech & Hn & _). assert (cj = length rp) by congruence. subst cj.
+  exists l, e, r. split.
+  - unfold root_tree. replace (node_of_reg 0 (mk_state ts rs)) with (Ok (ltree l, mk_state ts rs)); [reflexivity|].
+    symmetry. apply runs_intro. unfold node_of_reg. rbind; [apply runs_get_reg; apply reg_at_nth; exact Hr0|].
+    eapply runs_node_of; [exact HT|reflexivity].
+  - split; [exact Hc|]. split; [now apply (nth_entry_lentries l i ci)|]. split; [exact Hr|].
+    apply runs_intro. eapply reg_text_runs; [exact Eg|exact HT|].
+    cbn [s_tree]. change [ci; length rp] with ([ci] ++ [length rp]). rewrite get_path_app, (get_path_entry _ _ _ _ He).
+    cbn [get_path lentry_tree children]. now rewrite Ech, nth_error_app_len.
+Qed.
